@@ -77,6 +77,7 @@ fn acct_plans(prop: &'static str, thorough: bool) -> Vec<Plan> {
         o.max_dev = if thorough { 2 } else { 1 };
         o.ibc_down = true;
         o.recover_paginated = thorough;
+        o.recover_receivers = vec![Some(n20(&k, "n1"))];
         let mut sc = mk(&format!("acct-{}-{}", prop, k.name), vec![prop], seeds, Box::new(move |s| std_menu(s, &o)));
         sc.goal = Some(Box::new(|pre, a, ap, post| {
             let mut g = vec![];
